@@ -664,9 +664,38 @@ def repo_root():
     return os.path.realpath(os.environ.get('VERIF_REPO', '/repo'))
 
 
+def pycache_dir():
+    here = os.path.dirname(os.path.dirname(os.path.abspath(__file__)))
+    return os.path.join(here, 'out', 'C09', 'pycache')
+
+
+def enable_bytecode_cache():
+    """Byte-compile the package under test into a cache directory OUTSIDE the repository
+    (sys.pycache_prefix), so that the thousands of interpreters started here do not each
+    compile nsf.py / mass.py from source.  The repository itself is never written."""
+    prefix = pycache_dir()
+    try:
+        os.makedirs(prefix, exist_ok=True)
+        sys.pycache_prefix = prefix
+        sys.dont_write_bytecode = False
+        import compileall
+        compileall.compile_dir(os.path.join(repo_root(), 'periodictable'), maxlevels=0, quiet=2, workers=1)
+    except Exception:  # a missing cache only costs time
+        pass
+    return prefix
+
+
+def fresh_env():
+    env = dict(os.environ)
+    env.pop('PYTHONDONTWRITEBYTECODE', None)
+    env['PYTHONPYCACHEPREFIX'] = pycache_dir()
+    return env
+
+
 def pristine_import():
     """Make this process the pristine interpreter: third-party numpy/pyparsing (not events),
     then `import periodictable`, and nothing else of the package.  Returns the package path."""
+    enable_bytecode_cache()
     import numpy  # noqa
     import pyparsing  # noqa
     import periodictable
@@ -919,7 +948,7 @@ def fresh_run(history, probe=None, timeout=180, **extra):
     req = dict(extra)
     req['history'] = list(history)
     req['probe'] = probe
-    env = dict(os.environ)
+    env = fresh_env()
     try:
         p = subprocess.run([sys.executable, '-c', FRESH_CODE, json.dumps(req)], capture_output=True,
                            text=True, timeout=timeout, env=env)
